@@ -344,6 +344,15 @@ def genFen (seed n : Nat) (rootsFile : String) : IO Unit := do
     let clean (l : List Char) := String.ofList (l.filter (fun c => c != '\n' && c != '\r'))
     out.putStrLn s!"fen\t{clean m1}"
     out.putStrLn s!"fen\t{clean m2}"
+  -- characters of 2, 3 and 4 bytes at every byte offset of a long rejected text (error paths that
+  -- quote or abbreviate the input must cut at character boundaries)
+  for wide in ["é", "€", "😀"] do
+    for off in List.range 140 do
+      let pad := String.ofList (List.replicate off 'x')
+      out.putStrLn s!"fen\t{startFen} {pad}{wide}{wide} tail"
+      if off % 4 == 0 then
+        out.putStrLn s!"fen\t{pad}{wide}/8/8/8/8/8/8/8 w - - 0 1"
+        out.putStrLn s!"fen\trnbqkbnr/pppppppp/8/8/8/8/PPPPPPPP/RNBQKBNR w KQkq - 0 {pad}{wide}"
   -- systematic rank-width corruptions of the start position
   let ranks := ["rnbqkbnr", "pppppppp", "8", "8", "8", "8", "PPPPPPPP", "RNBQKBNR"]
   let variants := ["9", "7", "44p", "ppppppppp", "ppppppp", "71", "17", "p7p", "8p", "", "1p6", "0p7", "p0p6"]
